@@ -177,3 +177,65 @@ HX void hx_help_arg_group(uint64_t which, uint64_t) {
       vs_assert(count(os.str(), d) == ((WANT[which] && std::string(WANT[which]) == d) ? 1u : 0u), "help for one argument prints exactly that argument's description (sub-group arguments included)");
    vs_assert((count(es.str(), "unknown") >= 1) == (WANT[which] == nullptr), "an unknown key is reported as unknown");
 }
+
+// "plus default value, checks and constraints where configured": the usage shows the check / constraint / default value lines of
+// exactly the arguments that have them.  Properties of -a are symbolic bits, those of -b are selected by `bflags`.
+HX void hx_usage_extras(uint64_t bflags, uint64_t) {
+   std::ostringstream os, es;
+   Handler ah(os, es, Handler::hfHelpShort | Handler::hfUsageCont);
+   int a = 5, b = 7, c = 0;
+   unsigned char fl = vs_u8("flags"); vs_assume(fl < 32);
+   bool a_check = fl & 1, a_constr = fl & 2, a_default = fl & 4, a_unit = fl & 8, a_mand = fl & 16;
+   vs_assume(a_default || !a_unit);                     // documented: a unit can only be set when the default value is printed
+   auto* pa = ah.addArgument("a,alpha", DEST_VAR(a), "first-description");
+   if (a_check) pa->addCheck(lower(10));
+   if (a_constr) pa->addConstraint(requiresArg("b"));
+   pa->setPrintDefault(a_default);
+   if (a_unit) pa->setValueUnit("sec");
+   if (a_mand) pa->setIsMandatory();
+   auto* pb = ah.addArgument("b", DEST_VAR(b), "second-description");
+   if (bflags & 1) pb->addCheck(upper(100));
+   if (bflags & 2) pb->addConstraint(excludes("gamma"));
+   if (bflags & 4) pb->setPrintDefault(false);
+   ah.addArgument("gamma", DEST_VAR(c), "third-description")->addCheck(range(1, 5))->addCheck(upper(4));
+   char a0[] = "prog", a1[] = "-h"; char* argv[] = {a0, a1, nullptr};
+   int rc = 0;
+   try { ah.evalArguments(2, argv); } catch (const std::exception&) { rc = 1; } catch (...) { rc = 2; }
+   vs_assert(rc == 0, "printing the usage does not fail");
+   const std::string out = os.str();
+   vs_assert(count(out, "first-description") == 1 && count(out, "second-description") == 1 && count(out, "third-description") == 1, "every visible argument is listed exactly once");
+   vs_assert(count(out, "Check: Value >= 10") == (a_check ? 1u : 0u), "the check of an argument is shown exactly when it has one");
+   vs_assert(count(out, "Constraint: Requires b") == (a_constr ? 1u : 0u), "the constraint of an argument is shown exactly when it has one (with or without a check)");
+   vs_assert(count(out, "Default value: 5") == ((a_default && !a_mand) ? 1u : 0u), "the default value is shown exactly for optional arguments that have it configured");
+   vs_assert(count(out, "[sec]") == ((a_default && !a_mand && a_unit) ? 1u : 0u), "the value unit accompanies the default value");
+   vs_assert(count(out, "Check: Value < 100") == ((bflags & 1) ? 1u : 0u), "the check of an argument is shown exactly when it has one");
+   vs_assert(count(out, "Constraint: excludes (gamma)") == ((bflags & 2) ? 1u : 0u), "the constraint of an argument is shown exactly when it has one (with or without a check)");
+   vs_assert(count(out, "Default value: 7") == ((bflags & 4) ? 0u : 1u), "the default value is shown exactly for optional arguments that have it configured");
+   vs_assert(count(out, "Check: 1 <= value < 5, Value < 4") == 1, "all checks of an argument are shown");
+   // the extra lines stand in the block of their own argument: between its description and the next argument's key
+   size_t p1 = out.find("first-description"), p2 = out.find("second-description"), p3 = out.find("third-description");
+   size_t q;
+   if (a_check) { q = out.find("Check: Value >= 10"); vs_assert(a_mand ? (q > p1) : (q > p1 && q < p2), "extra lines stand in the block of their own argument"); }
+   if (a_constr) { q = out.find("Constraint: Requires b"); vs_assert(a_mand ? (q > p1) : (q > p1 && q < p2), "extra lines stand in the block of their own argument"); }
+   if (bflags & 2) { q = out.find("Constraint: excludes (gamma)"); vs_assert(q > p2 && q < p3, "extra lines stand in the block of their own argument"); }
+}
+// help for a single argument whose long key is a prefix of / has as prefix the long key of another argument, both definition orders
+HX void hx_help_arg_prefix(uint64_t which, uint64_t order) {
+   std::ostringstream os, es;
+   Handler ah(os, es, Handler::hfHelpArg | Handler::hfUsageCont);
+   int dst[3] = {0, 0, 0};
+   if (order == 0) { ah.addArgument("I,include-path", DEST_VAR(dst[0]), "path-description"); ah.addArgument("include", DEST_VAR(dst[1]), "include-description"); ah.addArgument("i", DEST_VAR(dst[2]), "letter-description"); }
+   else { ah.addArgument("i", DEST_VAR(dst[2]), "letter-description"); ah.addArgument("include", DEST_VAR(dst[1]), "include-description"); ah.addArgument("I,include-path", DEST_VAR(dst[0]), "path-description"); }
+   static const char* const KEYS[] = {"include", "include-path", "I", "i", "x", "includes"};
+   static const char* const WANT[] = {"include-description", "path-description", "path-description", "letter-description", nullptr, nullptr};
+   std::string key = KEYS[which];
+   char a0[] = "prog", a1[] = "--help-arg"; char* kbuf = new char[key.size() + 1]; std::strcpy(kbuf, key.c_str());
+   char* argv[] = {a0, a1, kbuf, nullptr};
+   int rc = 0;
+   try { ah.evalArguments(3, argv); } catch (const std::exception&) { rc = 1; } catch (...) { rc = 2; }
+   delete[] kbuf;
+   vs_assert(rc == 0, "asking for the help of an argument does not fail");
+   for (const char* d : {"path-description", "include-description", "letter-description"})
+      vs_assert(count(os.str(), d) == ((WANT[which] && std::string(WANT[which]) == d) ? 1u : 0u), "help for one argument prints exactly that argument's description, also when its key is a prefix of another key");
+   vs_assert((count(es.str(), "unknown") >= 1) == (WANT[which] == nullptr), "an unknown key is reported as unknown");
+}
